@@ -19,12 +19,14 @@ package utils
 
 import (
 	"encoding/binary"
+	"errors"
 	"fmt"
 	"io"
 	"io/ioutil"
 	"os"
 	"path/filepath"
 	"runtime"
+	"strconv"
 	"sync"
 	"time"
 	"unsafe"
@@ -33,6 +35,18 @@ import (
 
 	log "github.com/sirupsen/logrus"
 )
+
+// ErrorWithoutValue returns the error of a failed strconv conversion without the text that was converted.
+// strconv's *NumError quotes its input ("strconv.ParseInt: parsing \"<input>\": invalid syntax"); where the input
+// is a column value, a literal of a statement or a bound parameter the error must not carry it, because callers
+// log the errors they get. Any other error is returned as it is.
+func ErrorWithoutValue(err error) error {
+	var numErr *strconv.NumError
+	if errors.As(err, &numErr) {
+		return fmt.Errorf("strconv.%s: %w", numErr.Func, numErr.Err)
+	}
+	return err
+}
 
 // WriteFull writes data to io.Writer.
 // if wr.Write will return n <= len(data) will
